@@ -1159,8 +1159,9 @@ class ManifestRecursiveLoader:
                     # let's try to load it
                     try:
                         self.load_manifest(fpath)
-                    except ManifestSyntaxError:
-                        # syntax error? probably not a Manifest then.
+                    except (ManifestSyntaxError, UnicodeDecodeError):
+                        # syntax error or not even text? probably not
+                        # a Manifest then.
                         pass
                     except OSError as exc:
                         # bz2 returns generic OSError without errno
